@@ -94,11 +94,12 @@ func c11IntValue(r *rand.Rand) c11Val {
 func c11TimeValue(r *rand.Rand) c11Val {
 	if r.Intn(3) == 0 {
 		// durations: whole seconds, or positive with a fractional part
-		secs := []int64{0, 1, -1, 59, 3600, -86400, 1 << 31}[r.Intn(7)]
+		secs := []int64{0, 1, -1, 59, 3600, -86400, 1 << 31, 16777215, 16777216, 31535999, 315360000, 4294967295, 9000000000}[r.Intn(13)]
 		d := time.Duration(secs) * time.Second
 		want := secs
 		if secs >= 0 && r.Intn(2) == 0 {
-			d += time.Duration(1+r.Intn(999)) * time.Millisecond
+			// a positive fractional part, incl. one nanosecond short of / past a second boundary
+			d += []time.Duration{time.Duration(1+r.Intn(999)) * time.Millisecond, time.Nanosecond, 999999999 * time.Nanosecond, 999999000 * time.Nanosecond}[r.Intn(4)]
 		}
 		return c11Val{d, want, "time.Duration"}
 	}
